@@ -87,9 +87,16 @@ func socketKinds() []objKind {
 	return ks
 }
 
+// endpointProtos: the socket kinds whose dialers / listeners / pipes are enumerated.  The
+// endpoint code is pattern independent except that a core dialer's GetOption falls back to
+// its socket, so quick uses three representative patterns and thorough all 24.
 func endpointProtos(tier string) []string {
 	if tier == "thorough" {
-		return []string{"pair", "req", "xsub"}
+		var all []string
+		for _, p := range protos {
+			all = append(all, p.name)
+		}
+		return all
 	}
 	return []string{"pair", "req", "xsub"}
 }
@@ -145,9 +152,9 @@ func endpointKinds(tier string) []objKind {
 	return ks
 }
 
-func pipeKinds() []objKind {
+func pipeKinds(tier string) []objKind {
 	var ks []objKind
-	for _, pn := range []string{"pair", "req", "xsub"} {
+	for _, pn := range endpointProtos(tier) {
 		p := protoByName(pn)
 		for _, tr := range trans {
 			tr := tr
@@ -287,7 +294,12 @@ func runGridCase(w *wctx, c gridCase) {
 				})
 			}
 		}
-		g := guard(func() { r.err = t.set(c.name, v.v) })
+		g := guardHuge(huge, func() {
+			if huge {
+				hugeBarrier()
+			}
+			r.err = t.set(c.name, v.v)
+		})
 		switch {
 		case g.panicked:
 			w.fail("option-panic:"+call, "panic", in(call), "SetOption panicked: %s", g.pval)
